@@ -4,7 +4,7 @@
 use qwt::{AccessBin, BitVector, BitVectorMut};
 use serde::{Deserialize, Serialize};
 
-use crate::core::{catch, panic_kind, RunOut, Sig, Tier};
+use crate::core::{catch, panic_kind, Hinted, RunOut, Sig, Tier, HINT_STYLES};
 use crate::ds::{de_with, ser_with};
 use crate::prng::{stream, Digest, Rng};
 use crate::simdisk::{gen_plan, persist, reload, DiskPlan};
@@ -472,6 +472,104 @@ fn full(ctx: &mut Ctx, x: &BitVectorMut, m: &[bool], rng: &mut Rng, step: usize)
             );
         }
     }
+    // the iterators beyond next(): skipping (nth / skip / step_by), count, last on partly consumed iterators
+    {
+        let steps = [rng.urange(2, 9), *rng.pick(&[63usize, 64, 65, 128, 511, 512, 513])];
+        for s_ in steps {
+            let e: Vec<bool> = m.iter().copied().step_by(s_).collect();
+            ctx.obs("BitVectorMut", "iter_step_by", None, &|| w(&format!("iter().step_by({s_}) with len()={n}")), e, || x.iter().step_by(s_).take(n + 64).collect::<Vec<bool>>(), h_vec_bool);
+            let e: Vec<usize> = ones.iter().copied().step_by(s_).collect();
+            ctx.obs("BitVectorMut", "ones_step_by", None, &|| w(&format!("ones().step_by({s_}) with len()={n}")), e, || x.ones().step_by(s_).take(n + 64).collect::<Vec<usize>>(), h_vec_usize);
+        }
+        for _ in 0..3 {
+            // consume c bits (often a multiple of the word size), then nth(j), then the rest / count / last
+            let c = match rng.below(4) {
+                0 => (rng.usize_below(n / 64 + 1) * 64).min(n),
+                1 => (rng.usize_below(n / 512 + 1) * 512).min(n),
+                2 => n,
+                _ => rng.usize_below(n + 1),
+            };
+            let j = rng.usize_below(70);
+            let rest: Vec<bool> = m.iter().copied().skip(c).collect();
+            let e_nth = (rest.get(j).copied(), rest.iter().copied().skip(j + 1).collect::<Vec<bool>>());
+            ctx.obs(
+                "BitVectorMut",
+                "iter_nth",
+                None,
+                &|| w(&format!("iter(): {c} x next(), then nth({j}), then the rest; len()={n}")),
+                e_nth,
+                || {
+                    let mut it = x.iter();
+                    for _ in 0..c {
+                        it.next();
+                    }
+                    let g = it.nth(j);
+                    (g, it.take(n + 64).collect::<Vec<bool>>())
+                },
+                |v| h_vec_bool(&v.1) ^ v.0.map_or(7, |b| b as u64),
+            );
+            ctx.obs(
+                "BitVectorMut",
+                "iter_count_last",
+                None,
+                &|| w(&format!("iter(): {c} x next(), then (len(), count(), last()); len()={n}")),
+                (rest.len(), rest.len(), rest.last().copied()),
+                || {
+                    let mut it = x.iter();
+                    for _ in 0..c {
+                        it.next();
+                    }
+                    let mut it2 = x.iter();
+                    for _ in 0..c {
+                        it2.next();
+                    }
+                    (it.len(), it.count(), it2.last())
+                },
+                |v| v.0 as u64 ^ (v.1 as u64) << 20 ^ v.2.map_or(7, |b| b as u64) << 40,
+            );
+            // the same on the positions of ones from a start position
+            let p = rng.usize_below(n + 2);
+            let c1 = rng.usize_below(ones.len().min(130) + 1);
+            let rest1: Vec<usize> = ones.iter().copied().filter(|&q| q >= p).skip(c1).collect();
+            let e1 = (rest1.get(j % 5).copied(), rest1.iter().copied().skip(j % 5 + 1).collect::<Vec<usize>>());
+            ctx.obs(
+                "BitVectorMut",
+                "ones_nth",
+                None,
+                &|| w(&format!("ones_with_pos({p}): {c1} x next(), then nth({}), then the rest; len()={n}", j % 5)),
+                e1,
+                || {
+                    let mut it = x.ones_with_pos(p);
+                    for _ in 0..c1 {
+                        it.next();
+                    }
+                    let g = it.nth(j % 5);
+                    (g, it.take(n + 64).collect::<Vec<usize>>())
+                },
+                |v| h_vec_usize(&v.1) ^ v.0.map_or(7, |b| b as u64),
+            );
+        }
+    }
+    // the unchecked readers, inside their documented preconditions (index and index + len within the vector)
+    if n > 0 {
+        for _ in 0..4 {
+            let i = if rng.chance(1, 4) { n - 1 } else { rng.usize_below(n) };
+            // SAFETY: i < n
+            ctx.obs("BitVectorMut", "get_unchecked", None, &|| w(&format!("get_unchecked({i}) with len()={n}")), m[i], || unsafe { x.get_unchecked(i) }, |b| *b as u64);
+            let len = rng.urange(1, 64.min(n));
+            let start = if rng.bool() { n - len } else { rng.usize_below(n - len + 1) };
+            // SAFETY: start + len <= n, 1 <= len <= 64
+            ctx.obs(
+                "BitVectorMut",
+                "get_bits_unchecked",
+                None,
+                &|| w(&format!("get_bits_unchecked({start}, {len}) with len()={n}")),
+                model_bits(m, start, len).unwrap_or(0),
+                || unsafe { x.get_bits_unchecked(start, len) },
+                |v| *v,
+            );
+        }
+    }
     // the frozen vector
     let frozen = catch(|| BitVector::from(x.clone()));
     match frozen {
@@ -494,6 +592,80 @@ fn full(ctx: &mut Ctx, x: &BitVectorMut, m: &[bool], rng: &mut Rng, step: usize)
                     || bv.ones_with_pos(p).collect::<Vec<usize>>(),
                     h_vec_usize,
                 );
+            }
+            for &p in starts.iter().rev().take(6).chain(starts.iter().skip(2).step_by(5)) {
+                let e0: Vec<usize> = zeros.iter().copied().filter(|&q| q >= p).collect();
+                ctx.obs(
+                    "BitVector",
+                    "zeros_with_pos",
+                    None,
+                    &|| w(&format!("frozen zeros_with_pos({p}) with len()={n}")),
+                    e0,
+                    || bv.zeros_with_pos(p).collect::<Vec<usize>>(),
+                    h_vec_usize,
+                );
+            }
+            {
+                let s_ = *rng.pick(&[3usize, 5, 7, 64, 65]);
+                let e: Vec<bool> = m.iter().copied().step_by(s_).collect();
+                ctx.obs("BitVector", "iter_step_by", None, &|| w(&format!("frozen iter().step_by({s_}) with len()={n}")), e.clone(), || bv.iter().step_by(s_).take(n + 64).collect::<Vec<bool>>(), h_vec_bool);
+                ctx.obs("BitVector", "ref_into_iter_step_by", None, &|| w(&format!("frozen (&bv).into_iter().step_by({s_}) with len()={n}")), e.clone(), || (&bv).into_iter().step_by(s_).take(n + 64).collect::<Vec<bool>>(), h_vec_bool);
+                ctx.obs("BitVector", "into_iter_step_by", None, &|| w(&format!("frozen clone().into_iter().step_by({s_}) with len()={n}")), e, || bv.clone().into_iter().step_by(s_).take(n + 64).collect::<Vec<bool>>(), h_vec_bool);
+                let c = (rng.usize_below(n / 64 + 1) * 64).min(n);
+                let j = rng.usize_below(70);
+                let rest: Vec<bool> = m.iter().copied().skip(c).collect();
+                let e_nth = (rest.get(j).copied(), rest.iter().copied().skip(j + 1).collect::<Vec<bool>>());
+                ctx.obs(
+                    "BitVector",
+                    "iter_nth",
+                    None,
+                    &|| w(&format!("frozen iter(): {c} x next(), then nth({j}), then the rest; len()={n}")),
+                    e_nth.clone(),
+                    || {
+                        let mut it = bv.iter();
+                        for _ in 0..c {
+                            it.next();
+                        }
+                        let g = it.nth(j);
+                        (g, it.take(n + 64).collect::<Vec<bool>>())
+                    },
+                    |v| h_vec_bool(&v.1) ^ v.0.map_or(7, |b| b as u64),
+                );
+                ctx.obs(
+                    "BitVector",
+                    "into_iter_nth",
+                    None,
+                    &|| w(&format!("frozen clone().into_iter(): {c} x next(), then nth({j}), then the rest; len()={n}")),
+                    e_nth,
+                    || {
+                        let mut it = bv.clone().into_iter();
+                        for _ in 0..c {
+                            it.next();
+                        }
+                        let g = it.nth(j);
+                        (g, it.take(n + 64).collect::<Vec<bool>>())
+                    },
+                    |v| h_vec_bool(&v.1) ^ v.0.map_or(7, |b| b as u64),
+                );
+            }
+            if n > 0 {
+                for _ in 0..3 {
+                    let i = if rng.chance(1, 4) { n - 1 } else { rng.usize_below(n) };
+                    // SAFETY: i < n
+                    ctx.obs("BitVector", "get_unchecked", None, &|| w(&format!("frozen get_unchecked({i}) with len()={n}")), m[i], || unsafe { bv.get_unchecked(i) }, |b| *b as u64);
+                    let len = rng.urange(1, 64.min(n));
+                    let start = if rng.bool() { n - len } else { rng.usize_below(n - len + 1) };
+                    // SAFETY: start + len <= n, 1 <= len <= 64
+                    ctx.obs(
+                        "BitVector",
+                        "get_bits_unchecked",
+                        None,
+                        &|| w(&format!("frozen get_bits_unchecked({start}, {len}) with len()={n}")),
+                        model_bits(m, start, len).unwrap_or(0),
+                        || unsafe { bv.get_bits_unchecked(start, len) },
+                        |v| *v,
+                    );
+                }
             }
             for i in [0, n / 2, n.saturating_sub(1), n, n + 1] {
                 ctx.obs("BitVector", "get", None, &|| w(&format!("frozen get({i})")), m.get(i).copied(), || bv.get(i), h_opt_bool);
@@ -530,6 +702,30 @@ fn full(ctx: &mut Ctx, x: &BitVectorMut, m: &[bool], rng: &mut Rng, step: usize)
                     || (bv == p64, bv == p32, bv == pus),
                     |b| b.0 as u64 + 2 * b.1 as u64 + 4 * b.2 as u64,
                 );
+                // the other integer types, when every position fits
+                macro_rules! from_positions {
+                    ($($t:ty),*) => {{
+                        $(
+                            if (n - 1) as u128 <= <$t>::MAX as u128 {
+                                ctx.obs(
+                                    "BitVector",
+                                    "eq_frozen",
+                                    None,
+                                    &|| w(concat!("frozen == BitVector collected from the positions of its ones as ", stringify!($t))),
+                                    true,
+                                    || bv == ones.iter().map(|&p| p as $t).collect::<BitVector>(),
+                                    |b| *b as u64,
+                                );
+                            }
+                        )*
+                    }};
+                }
+                match rng.below(4) {
+                    0 => from_positions!(i8, u8, i16),
+                    1 => from_positions!(u16, u32, i64),
+                    2 => from_positions!(isize, u128, i128),
+                    _ => {}
+                }
             }
             // two vectors holding the same bits compare equal
             let fresh: BitVector = m.iter().copied().collect();
@@ -569,8 +765,14 @@ pub fn exec(case: &BvmCase) -> RunOut {
         Init::New => BitVectorMut::new(),
         Init::WithCapacity(k) => BitVectorMut::with_capacity(*k),
         Init::WithZeros(k) => BitVectorMut::with_zeros(*k),
-        Init::FromBools(s) => string_to_bits(s).into_iter().collect::<BitVectorMut>(),
-        Init::FromPositions(v) => v.iter().copied().collect::<BitVectorMut>(),
+        Init::FromBools(s) => {
+            let style = (s.len() % HINT_STYLES as usize) as u8;
+            Hinted { inner: string_to_bits(s).into_iter(), style }.collect::<BitVectorMut>()
+        }
+        Init::FromPositions(v) => {
+            let style = (v.len() % HINT_STYLES as usize) as u8;
+            Hinted { inner: v.iter().copied(), style }.collect::<BitVectorMut>()
+        }
     });
     m = match &case.init {
         Init::New | Init::WithCapacity(_) => vec![],
@@ -677,8 +879,14 @@ pub fn exec(case: &BvmCase) -> RunOut {
                 Op::ExtendZeros(k) => y.extend_with_zeros(*k),
                 Op::Set(i, b) => y.set(*i, *b),
                 Op::SetBits { index, len, bits } => y.set_bits(*index, *len, *bits),
-                Op::ExtendBools(s) => y.extend(string_to_bits(s)),
-                Op::ExtendPositions(v) => y.extend(v.iter().copied()),
+                Op::ExtendBools(s) => {
+                    let style = ((s.len() + step) % HINT_STYLES as usize) as u8;
+                    y.extend(Hinted { inner: string_to_bits(s).into_iter(), style })
+                }
+                Op::ExtendPositions(v) => {
+                    let style = ((v.len() + step) % HINT_STYLES as usize) as u8;
+                    y.extend(Hinted { inner: v.iter().copied(), style })
+                }
                 Op::ShrinkToFit => y.shrink_to_fit(),
                 Op::Clone => {
                     let z = y.clone();
@@ -694,7 +902,8 @@ pub fn exec(case: &BvmCase) -> RunOut {
                     y = f.into();
                 }
                 Op::IterCollect => {
-                    y = y.iter().collect::<BitVectorMut>();
+                    let style = ((n + step) % HINT_STYLES as usize) as u8;
+                    y = Hinted { inner: y.iter(), style }.collect::<BitVectorMut>();
                 }
                 Op::IntoIterCollect => {
                     y = y.into_iter().collect::<BitVectorMut>();
